@@ -83,30 +83,43 @@ beh = read("walk/behavior.rs")
 wmod = read("walk/mod.rs")
 opsrs = read("token/variance/ops.rs")
 FIELDS = {"min": "self_min", "extent": "self_extent", "0": "self_0"}
-translated = []
-try:
-    translated.append(rs2lean.translate(beh, r"impl DepthMinMax \{", "max", "depthMinMaxMax", "Nat", fields=FIELDS,
-                                        params=[("self_min", "Nat"), ("self_extent", "Nat")]))
-    translated.append(rs2lean.translate(beh, r"impl DepthMin \{", "min_at_pivot", "minAtPivot", "Nat", fields=FIELDS,
-                                        params=[("self_0", "Nat"), ("pivot", "Nat")]))
-    translated.append(rs2lean.translate(beh, r"impl DepthMax \{", "max_at_pivot", "maxAtPivot", "Nat", fields=FIELDS,
-                                        params=[("self_0", "Nat"), ("pivot", "Nat")]))
-    translated.append(rs2lean.translate(beh, r"impl DepthMinMax \{", "min_max_at_pivot", "minMaxAtPivot", "Nat × Nat", fields=FIELDS,
-                                        calls={"max": ("depthMinMaxMax", ["min", "extent"])},
-                                        params=[("self_min", "Nat"), ("self_extent", "Nat"), ("pivot", "Nat")]))
-    translated.append(rs2lean.translate(wmod, r"impl JoinAndGetDepth for Path \{", "join_and_get_depth", "joinDepth", "Nat",
-                                        opaque={"path.as_ref()": "DROP", "self.join(path)": "DROP",
-                                                "joined.components().count()": ("joinedCount", "Nat"),
-                                                "self.components().count()": ("selfCount", "Nat"),
-                                                "path.is_absolute()": ("pathIsAbsolute", "Bool"), "joined": ("()", None)},
-                                        project=1, params=[("pathIsAbsolute", "Bool"), ("joinedCount", "Nat"), ("selfCount", "Nat")]))
-    for ty, nm in (("usize", "Usize"), ("NonZeroUsize", "NonZero")):
-        translated.append(rs2lean.translate(opsrs, r"impl Conjunction for %s \{" % ty, "conjunction", "conjunction" + nm, "Nat",
-                                            fields={"": "self_v"}, params=[("self_v", "Nat"), ("rhs", "Nat")]))
-        translated.append(rs2lean.translate(opsrs, r"impl Product for %s \{" % ty, "product", "product" + nm, "Nat",
-                                            fields={"": "self_v"}, params=[("self_v", "Nat"), ("rhs", "Nat")]))
-except rs2lean.Untranslatable as ex:
-    fail("rs2lean: %s" % ex)
+def _t(*a, **k):
+    return rs2lean.translate(*a, **k)
+
+# three groups, one Lean module each, so that a function that can no longer be translated (or whose tie theorem fails) touches
+# only the properties whose theorems use that module
+GROUPS = {
+    "GeneratedBehavior": [
+        lambda: _t(beh, r"impl DepthMinMax \{", "max", "depthMinMaxMax", "Nat", fields=FIELDS, params=[("self_min", "Nat"), ("self_extent", "Nat")]),
+        lambda: _t(beh, r"impl DepthMin \{", "min_at_pivot", "minAtPivot", "Nat", fields=FIELDS, params=[("self_0", "Nat"), ("pivot", "Nat")]),
+        lambda: _t(beh, r"impl DepthMax \{", "max_at_pivot", "maxAtPivot", "Nat", fields=FIELDS, params=[("self_0", "Nat"), ("pivot", "Nat")]),
+        lambda: _t(beh, r"impl DepthMinMax \{", "min_max_at_pivot", "minMaxAtPivot", "Nat × Nat", fields=FIELDS,
+                   calls={"max": ("depthMinMaxMax", ["min", "extent"])}, params=[("self_min", "Nat"), ("self_extent", "Nat"), ("pivot", "Nat")]),
+    ],
+    "GeneratedJoin": [
+        lambda: _t(wmod, r"impl JoinAndGetDepth for Path \{", "join_and_get_depth", "joinDepth", "Nat",
+                   opaque={"P0.as_ref().is_absolute()": ("pathIsAbsolute", "Bool"), "P0.is_absolute()": ("pathIsAbsolute", "Bool"),
+                           "self.join(P0.as_ref()).components().count()": ("joinedCount", "Nat"),
+                           "self.join(P0).components().count()": ("joinedCount", "Nat"),
+                           "self.components().count()": ("selfCount", "Nat"),
+                           "self.join(P0.as_ref())": ("()", None), "self.join(P0)": ("()", None)},
+                   project=1, params=[("pathIsAbsolute", "Bool"), ("joinedCount", "Nat"), ("selfCount", "Nat")]),
+    ],
+    "GeneratedOps": [
+        (lambda ty=ty, nm=nm, tr=tr, fn=fn: _t(opsrs, r"impl %s for %s \{" % (tr, ty), fn, fn + nm, "Nat", fields={"": "self_v"}, params=[("self_v", "Nat"), ("rhs", "Nat")]))
+        for ty, nm in (("usize", "Usize"), ("NonZeroUsize", "NonZero")) for tr, fn in (("Conjunction", "conjunction"), ("Product", "product"))
+    ],
+}
+group_text, group_fail = {}, {}
+for gname, fns in GROUPS.items():
+    defs = []
+    for f in fns:
+        try:
+            defs.append(f())
+        except rs2lean.Untranslatable as ex:
+            group_fail.setdefault(gname, []).append(str(ex))
+    group_text[gname] = "\n".join(["import Wax.Generated", "/-! GENERATED from the Rust sources by tools/extract.py + tools/rs2lean.py; do not edit. -/",
+                                    "namespace Wax.Generated", ""] + defs + ["", "end Wax.Generated"]) + "\n"
 
 def lchar(c):
     c = c[-1] if c.startswith("\\") and len(c) == 2 and c[1] != "\\" else ("\\" if c in ("\\\\",) else c)
@@ -133,10 +146,28 @@ out.append("def neverExpression : String := %s" % lstr(never_expr))
 out.append("def separatorClassExpression : String := %s" % lstr(sep_class))
 out.append("def rootSeparatorExpression : String := %s" % lstr(root_sep))
 out.append("def semanticLiterals : List String := [%s]" % ", ".join(lstr(x) for x in sem_lits))
-out += ["", "/-! straight-line integer functions translated from the source by tools/rs2lean.py -/", rs2lean.PRELUDE] + translated
+out += ["", "/-! helpers of the straight-line integer functions translated by tools/rs2lean.py (Wax/GeneratedBehavior.lean, GeneratedJoin.lean, GeneratedOps.lean) -/", rs2lean.PRELUDE]
 out += ["", "-- obligations re-checked against the code as it is now",
  "theorem meta_eq_escapes : metaChars.all (literalEscapes.contains ·) && literalEscapes.all (metaChars.contains ·) = true := by decide",
  "theorem stop_is_meta_plus_sep_bs : literalStopSet.all (fun c => c == '/' || c == '\\\\' || metaChars.contains c) && metaChars.all (literalStopSet.contains ·) && literalStopSet.contains '/' && literalStopSet.contains '\\\\' = true := by decide",
  "theorem table_total : terminationTable.length = 25 := by decide",
  "", "end Wax.Generated"]
-print("\n".join(out))
+tables = "\n".join(out) + "\n"
+if "--dir" in sys.argv:
+    import json
+    d = sys.argv[sys.argv.index("--dir") + 1]
+    changed = []
+    for name, text in [("Generated", tables)] + sorted(group_text.items()):
+        path = os.path.join(d, name + ".lean")
+        old = open(path, encoding="utf-8").read() if os.path.exists(path) else None
+        if old is None or old.rstrip("\n") != text.rstrip("\n"):
+            open(path, "w", encoding="utf-8").write(text)
+            changed.append(name)
+    print(json.dumps({"changed": changed, "untranslatable": group_fail}))
+else:
+    print(tables, end="")
+    for g in sorted(group_text):
+        print("-- ==== Wax/%s.lean" % g)
+        print(group_text[g], end="")
+    for g, why in group_fail.items():
+        print("TRANSLATE-FAIL %s: %s" % (g, "; ".join(why)))
